@@ -18,7 +18,7 @@ echo "--- demo on unchanged /repo" | tee -a $LOG
 echo "--- demo on patched worktree" | tee -a $LOG
 ( cd $OUT && timeout 1200 bash ./run_demo.sh $WT > /var/tmp/mutdemo-$ID-patched.log 2>&1; echo "exit=$?" ) | tee -a $LOG
 echo "--- checks against the patched worktree" | tee -a $LOG
-cd /verif
+cd ${VERIF_DIR:-/verif}
 for c in "$@"; do
   TRV_REPO=$WT timeout 3000 ./check $c --tier quick > /var/tmp/mutchk-$ID-$c.log 2>&1; rc=$?
   echo "$c rc=$rc | $(grep -E 'VIOLATION' /var/tmp/mutchk-$ID-$c.log | head -1 | cut -c1-200) | $(tail -1 /var/tmp/mutchk-$ID-$c.log | cut -c1-200)" | tee -a $LOG
